@@ -1,6 +1,7 @@
 /* all arguments nondeterministic: the contract's requires clauses (is_fresh, lengths,
  * data invariants) define the domain; pointers are allocated by __CPROVER_is_fresh */
 void harness(void) {
+  VERIF_PROLOGUE();
   const blake3_chunk_state *self;
   chunk_state_output(self);
   VERIF_REACHABLE();
